@@ -192,13 +192,33 @@ def _run_sort(desc):
         inten = np.array([10.0 * c[0] + c[1] + 0.5 for c in order], np.float32)
         lab = np.array([c[0] * 4 + c[1] for c in order], np.int32)
         case = {"kind": "sort", "cells": [list(c) for c in order]}
-        for method in ("sort", "sort_by"):
+        for method in ("sort", "sort_by", "from_data_mask,reorder,sort", "sort,reorder,sort", "sort_by(descending key),sort"):
             fr = sf.sparse_frame(row.copy(), col.copy(), shp, pixels={"intensity": inten.copy(), "lab": lab.copy()})
             try:
                 if method == "sort":
                     fr.sort()
-                else:
+                elif method == "sort_by":
                     fr.sort_by("lab")      # lab is monotone in (row, col): same target order
+                elif method == "from_data_mask,reorder,sort":
+                    # histories: a frame that WAS in order (made by the converter, or sorted before) is scrambled with the public
+                    # reorder() and sorted again
+                    if k == 0:
+                        continue
+                    img = np.zeros(shp, np.float32)
+                    for c in cells_sorted:
+                        img[c] = 10.0 * c[0] + c[1] + 0.5
+                    fr = sf.from_data_mask(img > 0, img, {})
+                    fr.set_pixels("lab", np.array([c[0] * 4 + c[1] for c in cells_sorted], np.int32))
+                    fr.reorder(np.array(perm))
+                    fr.sort()
+                elif method == "sort,reorder,sort":
+                    fr.sort()
+                    fr.reorder(np.array(perm))
+                    fr.sort()
+                else:
+                    fr.set_pixels("neg", -lab.copy())
+                    fr.sort_by("neg")
+                    fr.sort()
             except Exception as e:
                 sh.violation("sparse_frame.%s:raises" % method, dict(case, method=method), {"error": "%s: %s" % (type(e).__name__, e)})
                 continue
